@@ -213,6 +213,21 @@ def hasLive {α} (s : Segment α) : Bool := decide (0 < s.alive.count true)
 that still hold a live document become readers of the merge -/
 def mergeReaders {α} (segs : List (Segment α)) : List (Segment α) := segs.filter hasLive
 
+/-! ### an arbitrary doc-id mapping (`MappingType::Shuffled`: merges of a sorted index) -/
+
+/-- postings of `k` of all sources, each remapped through the filled old→new tables -/
+def remapAllFrom {α} (m : Tables) (k : Key) : Nat → List (Segment α) → List Posting
+  | _, [] => []
+  | i, s :: rest => remapPostings m i (postingsOf s.terms k) ++ remapAllFrom m k (i + 1) rest
+
+/-- mirrors: src/indexer/merger.rs::write_postings_for_field, non-trivial mapping: the remapped
+postings of all sources are collected and `sort_unstable_by_key(doc_id)` before they are written -/
+def shuffledPostings {α} (segs : List (Segment α)) (tbl : List (Nat × Nat)) (k : Key) : List Posting :=
+  (remapAllFrom (fillFrom (emptyTables segs) 0 tbl) k 0 segs).mergeSort fun a b => a.doc ≤ b.doc
+
+/-- per-document data through an arbitrary table (`write_fieldnorms`, shuffled columnar merge) -/
+def shuffledDocs {α} (segs : List (Segment α)) (tbl : List (Nat × Nat)) : List α := copyDocs segs tbl
+
 /-! ### well-formedness of a physical segment -/
 
 /-- strictly increasing doc ids below `n` -/
